@@ -18,11 +18,19 @@ MANIFEST = {
             "timed/untimed waiters on one ABT_cond, exhaustive enqueue/signal/broadcast/timeout orders for small scopes + "
             "seeded larger ones (incl. a signal landing between a waiter's clock read and its locked test), locked "
             "white-box dump of the list after every action; pusher / other consumer / clock vs blocking pop for "
-            "FIFO/FIFO_WAIT/RANDWS and the basic_wait scheduler sitting in pop_wait.",
+            "FIFO/FIFO_WAIT/RANDWS and the basic_wait scheduler sitting in pop_wait. Concurrency monitor supporting that "
+            "correspondence (RC stage; NOT part of the Coq model, which takes 'release the mutex and join the wait list' of "
+            "ABT_cond_timedwait as one lock-protected step — the atomic release-and-wait theorem itself is C05's): a "
+            "pthread/ULT waiter loops lock; flag=0; timedwait(far virtual deadline, frozen clock); unlock while 1-2 pthreads "
+            "spinning on ABT_mutex_trylock (plus 0-2 sleeping on the mutex) send exactly one signal per round as soon as the "
+            "waiter has given the mutex up; a round that ends with ABT_ERR_COND_TIMEDOUT although ABT_cond_signal had "
+            "returned before the clock was moved is a failing input.",
     "note": "Trusted: Coq kernel, extraction, the hand-written models (validated by the differential harness, not verified "
             "against the C text), the ABT_VERIF virtual-clock hook (ABTI_get_wtime, 0.5 ms futex re-check), gcc/glibc/futex. "
             "Modelled not verified: lock-protected sections are single steps; memory model SC; the ULT suspend/resume and "
-            "futex sleep/wake mechanics are abstracted to the READY flag; monotone clock.",
+            "futex sleep/wake mechanics are abstracted to the READY flag; monotone clock. The RC stage samples thread "
+            "interleavings of the real library (hundreds of rounds in quick, thousands in thorough); it is a probabilistic "
+            "monitor, not a proof, and it judges only rounds in which the signal was really issued before the deadline.",
 }
 
 ESK = ["e", "1", "2", "3"]
@@ -250,15 +258,33 @@ def gen_pw(rng, tier):
     return cases, {"pw_fixed": nfix, "pw_random": nrand}
 
 
+# ---------------------------------------------------------------- RC cases
+def gen_rc(rng, tier):
+    """signal racing the waiter's mutex release inside ABT_cond_timedwait (concurrency monitor, see h_c19.c).
+    RC <rounds> <waiter kind> <spinning signallers> <threads sleeping on the mutex>"""
+    n = 1 if tier == "quick" else 20
+    fixed = [(120, "e", 1, 1), (120, "1", 1, 1), (80, "e", 2, 1), (80, "2", 2, 1), (60, "e", 1, 0), (60, "3", 1, 0),
+             (60, "e", 2, 0), (60, "1", 1, 2)]
+    cases = ["RC %d %s %d %d" % (r * n, k, sp, bl) for (r, k, sp, bl) in fixed]
+    nrand = 4 if tier == "quick" else 24
+    for _ in range(nrand):
+        cases.append("RC %d %s %d %d" % (rng.choice([40, 60, 80]) * n, rng.choice(ESK), rng.choice([1, 1, 2]),
+                                         rng.choice([0, 1, 1, 2])))
+    rounds = sum(int(c.split()[1]) for c in cases)
+    return cases, {"rc_cases": len(cases), "rc_rounds": rounds}
+
+
 def gen(rng, tier):
+    c0, s0 = gen_rc(rng, tier)
     c1, s1 = gen_wl_exhaustive(rng, tier)
     c2, s2 = gen_wl_random(rng, tier)
     c3, s3 = gen_pw(rng, tier)
     s1.update(s2)
     s1.update(s3)
+    s1.update(s0)
     s1["exhaustive"] = True
     # cheap cases first so that a broken build shows up at once; keep the order deterministic
-    return c3 + c1 + c2, s1
+    return c3 + c0 + c1 + c2, s1
 
 
 def classify(case, impl, model):
@@ -284,7 +310,17 @@ def run(tier, seed, replay):
              "(thorough) waiters, each also with a late arrival after every prefix (n<=3), kinds (pthread / ULT on ES 1-3) "
              "exhaustive for n<=2 and seeded beyond; seeded sequences with interleaved enqueues, restarts and "
              "past/near/far deadlines for n<=8; non-trivial = >=2 enqueues and a signal or clock step. PW: fixed deadline-"
-             "boundary scripts for FIFO/RANDWS (virtual clock) and FIFO_WAIT (real time) + seeded scripts. Distinct = "
+             "boundary scripts for FIFO/RANDWS (virtual clock) and FIFO_WAIT (real time) + seeded scripts. RC "
+             "(concurrency monitor, not replayed on the Coq model; expected line = the constant 'every judged round "
+             "returns ABT_SUCCESS'): 8 fixed + 4 (quick) / 24 (thorough) seeded configurations of waiter kind (pthread / "
+             "ULT on ES 1-3) x 1-2 signallers spinning on ABT_mutex_trylock x 0-2 threads sleeping on the mutex, 40-120 "
+             "rounds each (x20 in thorough); per round exactly one ABT_cond_signal, sent by a thread that obtained the "
+             "mutex after the waiter gave it up inside ABT_cond_timedwait, under a frozen virtual clock with the deadline "
+             "10^6 s ahead; lost = ABT_ERR_COND_TIMEDOUT in a round whose signal had returned before the clock was moved; "
+             "a round in which no signaller got the mutex within 60 s is not judged and is repeated. Distinct = "
              "distinct case text.",
         extra_assumptions=["virtual clock hook ABTI_verif_hooks.clock (ABT_VERIF build of /repo's working tree, -O2)",
-                           "white-box walk of ABTI_cond.waitlist under the cond's spinlock after every action"])
+                           "white-box walk of ABTI_cond.waitlist under the cond's spinlock after every action",
+                           "RC stage: thread interleavings are whatever the OS scheduler produces (no exhaustive "
+                           "schedule exploration); the locked look at the cond's wait list only decides when the "
+                           "harness moves the virtual clock, the verdict is the waiter's return code"])
